@@ -127,6 +127,28 @@ def gen_cases(ctx, tier):
         length = rng.randint(5, STEPS * sum(len(p) for p in progs) + 5)
         cases.append(core.fmt_case([k, s0, 400, B - d - s0], progs,
                                    core.random_sched(rng, nt, length, rng.randrange(3)) if nt > 1 else []))
+    # a claim stalled across a lap: thread 0 is stopped inside a call (after its CAS on low / high, before its slot
+    # store), a runner takes the counters once round the ring with balanced push/pop pairs, then two (or three) threads
+    # race on the slots next to and at the stalled one
+    nlap = 600 if tier == "quick" else 12000
+    for i in range(nlap):
+        k = rng.choice([1, 2, 2, 2, 3])
+        size = 1 << k
+        stall_pop = rng.random() < 0.6
+        p0 = [(PUSH, 41), (POP, 0)] if stall_pop else [(PUSH, 41)]
+        done0 = STEPS if stall_pop else 0
+        m = max(0, size - rng.choice([3, 2, 2, 2, 1, 0]))
+        runner = []
+        for j in range(m):
+            runner += [(PUSH, 10 + j), (POP, 0)]
+        if not stall_pop:
+            runner = [(POP, 0)] * rng.choice([0, 1]) + runner
+        nrace = rng.choice([2, 2, 3])
+        racers = [[(rng.choice([PUSH, PUSH, PUSH, POP]), 30 + 3 * r + j) for j in range(rng.randint(1, 2))] for r in range(nrace)]
+        progs = [p0, runner] + racers
+        sched = [0] * (done0 + rng.randint(1, STEPS)) + [1] * (STEPS * len(runner) + 2)
+        sched += [rng.randrange(2, 2 + nrace) for _ in range(STEPS * 2 * nrace + 4)]
+        cases.append(core.fmt_case([k, rng.choice([0, 0, 3]), 400], progs, sched))
     # sequential programs (one thread): results must match the sequential queue
     for _ in range(200):
         progs = [[(rng.choice([PUSH, POP]), rng.randint(1, 9)) for _ in range(rng.randint(1, 12))]]
@@ -139,7 +161,7 @@ def gen_cases(ctx, tier):
             p0 = [(PUSH, 100 + j) for j in range(pre)] + [(a, 7)]
             cases.append(core.fmt_case([1, 0, 300], [p0, [(b, 8)], [(c, 9)]], [0] * (STEPS * pre) + il))
     ctx.coverage["case_distribution"] = {"exhaustive_2thread_interleavings": n_ex,
-                                         "random_programs": nrand, "sequential": 200, "counters_crossing_2^16/31/32/33": nwrap,
+                                         "random_programs": nrand, "sequential": 200, "counters_crossing_2^16/31/32/33": nwrap, "claim_stalled_across_a_lap": nlap,
                                          "total": len(cases)}
     return cases
 
